@@ -64,6 +64,30 @@ type Ctx struct {
 	Explanation string
 	Selftests   []map[string]interface{}
 	loadErrs    []string
+	// borrow: while a rule function of ANOTHER property runs on behalf of this
+	// one, only the rules named here are kept, under the id they map to.
+	borrow map[string]string
+}
+
+// Borrow runs f (the check function of another property) and keeps, of
+// everything it reports, only the obligations of the rules listed in m, renamed
+// to the mapped ids of this property. A necessary condition that two properties
+// share (the header decoder accepting every well-formed block is part of the
+// wire layout AND of context propagation) is then decided by the one
+// implementation under both properties.
+func (c *Ctx) Borrow(m map[string]string, doc map[string]string, min map[string]int, f func()) {
+	if c.borrow != nil {
+		return // no borrowing on behalf of a borrower
+	}
+	expl := c.Explanation
+	c.borrow = m
+	f()
+	c.borrow = nil
+	c.Explanation = expl
+	for id, d := range doc {
+		c.ruleDoc[id] = d
+		c.minInst[id] = min[id]
+	}
 }
 
 func NewCtx(prop, tier string) *Ctx {
@@ -84,11 +108,22 @@ func NewCtx(prop, tier string) *Ctx {
 // Rule declares a rule with its documentation and the minimum number of
 // instances confirmed by hand on the pinned tree.
 func (c *Ctx) Rule(rule, doc string, min int) {
+	if c.borrow != nil {
+		return
+	}
 	c.ruleDoc[rule] = doc
 	c.minInst[rule] = min
 }
 
 func (c *Ctx) add(o *Obligation) *Obligation {
+	if c.borrow != nil {
+		to, ok := c.borrow[o.Rule]
+		if !ok {
+			return o
+		}
+		o.Construct = o.Rule + " " + o.Construct
+		o.Rule = to
+	}
 	o.Property = c.Prop
 	// the same construct may be visited under several build configurations:
 	// keep the worst status.
